@@ -525,6 +525,11 @@ func carriedDiag(p *Prog) {
 	for _, f := range sh {
 		fmt.Printf("shadow %s %s at %s: %s\n", f.kind, f.fn.Key(), p.Pos(f.node), exprString2(f.node))
 	}
+	rm, nrm := roleMismatches(p, p.live())
+	fmt.Printf("role-mismatch: %d examined\n", nrm)
+	for _, f := range rm {
+		fmt.Printf("role-mismatch %s at %s: %s <- %s (want %s)\n", f.fn.Key(), p.Pos(f.call), f.param, f.got, f.want)
+	}
 	if os.Getenv("TVC_CARRIED") == "new" {
 		return
 	}
